@@ -314,6 +314,24 @@ def run(ctx):
     if not written and not statics:
         ctx.ok("R14.4", parse, "no-parser-or-static-state",
                "no member of parser and no static-storage object is written on the parse path (%d functions scanned)" % len(full_reach), parse)
+    # ---- R14.5: parse() leaves the parser object itself alone. Everything a parse produces lives in the options (reset by the prepare
+    # pass) and in locals; a data member of parser that parse() writes - a remembered verdict, an index, a counter - is state that
+    # the next call starts from
+    ctx.rule("R14.5", "no data member of parser is written on the parse path: the parser object is the same before and after a parse (caches, verdicts and counters kept in it leak into the next call)")
+    from .common import PARSE_ARGV, std_lookup
+    pwrites = []
+    for fid in sorted(cg.reachable([parse.id] + ([PARSE_ARGV] if prog.fn(PARSE_ARGV) is not None else []))):
+        g = prog.fn(fid)
+        if g is None or not g.has_cfg or g.cls != NS + "parser" or g.kind in ("ctor", "dtor"):
+            continue
+        for (w, base, n2, b2, i2, how) in cg.field_writes(g):
+            if base == "this" and w.startswith(NS + "parser::") and how == "write" and not std_lookup(n2):
+                pwrites.append((g, w, n2))
+    for g, w, n2 in pwrites:
+        ctx.bad("R14.5", g, "parser-unchanged-by-parse:%s" % short(w), "%s writes parser::%s (`%s`) on the parse path: what one parse leaves there is what the next parse on the same object starts from - "
+                "a freshly built identical parser would decide differently" % (short(g.qual), short(w), fmt(n2)[:60] if isinstance(n2, dict) else ""), (g, n2.get("ln") if isinstance(n2, dict) else None))
+    if not pwrites:
+        ctx.ok("R14.5", parse, "parser-unchanged-by-parse", "no parser member is written by the functions reachable from parse()", parse)
     # ---- R14.4: the argument strings are read before anything of the previous call is released. argv may point INTO the previous
     # result (`first.get("output").c_str()` forwarded to the next call): the reset pass frees those strings
     ctx.rule("R14.4", "in parse(argc, argv) no read of argv is reachable after the reset pass (the arguments are copied into tokens first, then the previous values are released)")
